@@ -80,6 +80,38 @@ func checkC18(p *Program, r *Result) {
 	for _, fn := range fns {
 		checkMessageLiteral(p, r, fn)
 	}
+	// C18.k: header fields are "key=value" where the value may itself contain '=' (message definitions with
+	// constants, caller ids): the separator is the FIRST '=' — never a split at every '='.
+	r.rule("C18.k", "header key/value separation at the first '='", 2)
+	for _, name := range []string{"headerToMap", "extractHeaderValue"} {
+		fn := p.lookupFunc(pkgRos, name)
+		if fn == nil {
+			continue
+		}
+		first, split := false, ""
+		for _, ci := range callsIn(fn, func(ssa.CallInstruction) bool { return true }) {
+			switch n := staticCalleeName(ci.Common()); n {
+			case "bytes.IndexByte", "bytes.Index", "strings.Index", "strings.IndexByte", "bytes.Cut", "strings.Cut":
+				first = true
+			case "strings.Split", "bytes.Split", "strings.Fields", "bytes.Fields", "strings.LastIndex", "bytes.LastIndex", "bytes.LastIndexByte", "strings.LastIndexByte":
+				split = n
+			case "strings.SplitN", "bytes.SplitN":
+				if c, ok := ci.Common().Args[2].(*ssa.Const); ok && c.Value != nil && c.Value.String() == "2" {
+					first = true
+				} else {
+					split = n
+				}
+			}
+		}
+		switch {
+		case split != "":
+			r.violated("C18.k", funcName(fn), "key/value separator", p.pos(fn.Pos()), "the field is separated with "+trimPkg(split)+"; a value containing '=' (e.g. a message definition declaring a constant) is truncated at its first '='")
+		case first:
+			r.held("C18.k", funcName(fn), "key/value separator", p.pos(fn.Pos()), "position of the first '='")
+		default:
+			r.undecided("C18.k", funcName(fn), "key/value separator", p.pos(fn.Pos()), "no separator search recognised")
+		}
+	}
 }
 
 // checkRowsErr: after a loop driven by (*sql.Rows).Next, rows.Err() must be called on the same rows value
